@@ -192,6 +192,13 @@ CHECKS["C09"] = {
     "note": "Termination is observed as 'within budget', never proved. A hang is turned into a budget overrun (the callback raises), so the check itself always finishes. Known finding: in lax mode a template that calls itself twice per level does 2^30 renders.",
 }
 
+CHECKS["C20"] = {
+    "technique": "generated-input search with a source-text oracle (every reported span must index its template's source at the reported name; error positions checked against an independent line/column walk)",
+    "text": "Generated multi-line templates (LF, CRLF, form feed, U+2028, U+0085 and non-ASCII text; liquid tags, nested and bracketed paths, filters, ternaries, macros) with two generated partials: every Span of analyze() and of analyze_tags must name a loaded template and index its source at the reported variable root / local / filter / tag name, and Span.line_col must equal an independent computation. Prefixes, mutations, token soup and fixed malformed sources parsed in strict mode: a raised LiquidError must carry a token whose source is the parsed text with start_index inside it, str(error) must not raise, and the reported line:column must match the index and appear in the message.",
+    "design_ref": "DESIGN.md §4 C20",
+    "note": "A variable whose root is itself a bracketed path ([a.b].c) is located at its opening bracket.",
+}
+
 NOT_APPLICABLE = [
     {"property_id": p, "reason": "check not built yet in this round (work in progress; see DESIGN.md §4 for the planned oracle)"}
     for p in ALL
